@@ -326,6 +326,23 @@ def c08(run):
                              "splice, token insertion) of a corpus of valid encodings of every type, arbitrary bytes, deep nesting; plus "
                              "TLC-enumerated corruptions of the specification's WKB encodings; non-trivial = every input"}
     family_enumerated(run, "decode", "Gen_Corrupt", "Trace_Decode", gen_cfg=tier_n(run, "Gen_Corrupt.cfg", "Gen_Corrupt_full.cfg"))
+    # grammar-generated inputs of the other formats: the documents / texts / encodings enumerated for C06, C05, C07
+    for gen, cfg, fmt, field in (("Gen_GeoJSON", None, "geojson", "text"), ("Gen_WKT", tier_n(run, "Gen_WKT.cfg", "Gen_WKT_full.cfg"), "wkt", "text"),
+                                 ("Gen_TWKB", tier_n(run, "Gen_TWKB.cfg", "Gen_TWKB_full.cfg"), "twkb", "bytes")):
+        src, n = run.tlc_cases(gen, cfg=cfg, out_path=_os.path.join(run.dir, "cases-%s-for-decode.ndjson" % gen))
+        conv = _os.path.join(run.dir, "decode-cases-%s.ndjson" % gen)
+        with open(src) as f, open(conv, "w") as g:
+            for line in f:
+                c = _json.loads(line)
+                d = {"fmt": fmt}
+                if field == "text":
+                    d["text"] = c["text"].replace('"NULL"', "null")
+                else:
+                    d["bytes"] = c["bytes"]
+                g.write(_json.dumps(d, separators=(",", ":")) + "\n")
+        ev = _os.path.join(run.dir, "events-decode-%s.ndjson" % gen)
+        run.drive(["one", "decode"], out_path=ev, stdin_path=conv)
+        props.judge_events(run, "decode", "Trace_Decode", ev, "grammar:" + gen)
     family_random(run, "decode", "Trace_Decode", tier_n(run, 12000, 400000))
 
 FAMILY_MODULE["envelope"] = "Trace_Envelope"
